@@ -737,7 +737,7 @@ func Extract(a *Term, hi, lo int) *Term {
 			return Extract(a.args[0], hi-lw, lo-lw)
 		}
 	case OBvAnd, OBvOr, OBvXor:
-		if lo == 0 || a.args[1].IsConst() {
+		if a.args[1].IsConst() || (simpleLeaf(a.args[0]) && simpleLeaf(a.args[1])) {
 			x, y := Extract(a.args[0], hi, lo), Extract(a.args[1], hi, lo)
 			switch a.op {
 			case OBvAnd:
@@ -749,7 +749,7 @@ func Extract(a *Term, hi, lo int) *Term {
 			}
 		}
 	case OBvAdd, OBvSub, OBvMul:
-		if lo == 0 {
+		if lo == 0 && simpleLeaf(a.args[0]) && simpleLeaf(a.args[1]) {
 			x, y := Extract(a.args[0], hi, 0), Extract(a.args[1], hi, 0)
 			switch a.op {
 			case OBvAdd:
@@ -766,6 +766,17 @@ func Extract(a *Term, hi, lo int) *Term {
 		}
 	}
 	return intern(&Term{op: OExtract, sort: BV(nw), args: []*Term{a}, p1: hi, p2: lo})
+}
+
+// simpleLeaf: distribution of extract is only done one level deep (no exponential re-traversal of DAGs).
+func simpleLeaf(t *Term) bool {
+	switch t.op {
+	case OConst, OVar, OZext, OSext, OConcat:
+		return true
+	case OExtract:
+		return t.args[0].op == OVar
+	}
+	return false
 }
 
 func Concat(hi, lo *Term) *Term {
